@@ -1,4 +1,4 @@
-"""Translator: the simpler `case RULE_*:` bodies of peg_rule (peg.c)  ->  programs of the IR `Peg/Skel.lean`
+"""Translator: ALL 37 `case RULE_*:` bodies of peg_rule (peg.c)  ->  programs of the IR `Peg/Skel.lean`
 (`Gen/PegSkel.lean`), plus a canonical form of EVERY case body that is insensitive to comments, whitespace, names of locals,
 `(void)` casts and `const` qualifiers (compared by checks/C12.py with harness/C12/case_canon.json instead of a raw text hash).
 
